@@ -73,7 +73,7 @@ def reply_identity_errors(r, cfg):
 
 
 # content templates: fn(dmac, cmac, cip, sip) -> frame ------------------------------------------------
-def templates(rng):
+def templates(rng, ns_target=None):
     tid = stun.gen_tid(rng, True)
     stun_req = stun.msg(1, tid)
     dq = dns.header(rng.getrandbits(16) | 0x0100, 0x0100, 1) + dns.question([b"scope", b"test"])
@@ -96,6 +96,8 @@ def templates(rng):
     t6 = [
         ("echo6", lambda dm, cm, ci, si: l3(dm, cm, ci, si, P_ICMP6, pkt.icmp6(ci, si, 128, 0, struct.pack("!HH", ident, 1) + b"scope"))),
         ("ns6", lambda dm, cm, ci, si: l3(dm, cm, ci, si, P_ICMP6, pkt.icmp6(ci, si, 135, 0, b"\0\0\0\0" + si + b"\x01\x01" + cm))),
+        # solicitation for a fixed (handled) target, sent to whatever destination address the case dictates
+        ("ns6t", lambda dm, cm, ci, si: l3(dm, cm, ci, si, P_ICMP6, pkt.icmp6(ci, si, 135, 0, b"\0\0\0\0" + (ns_target or si) + b"\x01\x01" + cm))),
         ("syn6", lambda dm, cm, ci, si: l3(dm, cm, ci, si, P_TCP, pkt.tcp(ci, si, sp, dp, seq, 0, SYN))),
         ("stun6", lambda dm, cm, ci, si: l3(dm, cm, ci, si, P_UDP, pkt.udp(ci, si, sp, dp, stun_req))),
     ]
@@ -117,12 +119,12 @@ def one_bit_neighbours(rng, a, n=4):
 def build_cases(ctx, cfg, sweep):
     """-> list of (name, test_frame, control_frame)"""
     rng = ctx.rng
-    t4, t6 = templates(rng)
+    s4 = [a for a in (cfg.selfips or []) if len(a) == 4]
+    s6 = [a for a in (cfg.selfips or []) if len(a) == 16]
+    t4, t6 = templates(rng, ns_target=rng.choice(s6) if s6 else gen.rnd_ip6(rng))
     cases = []
     auth = sorted(auth_macs(cfg))
     cm = gen.rnd_mac(rng)
-    s4 = [a for a in (cfg.selfips or []) if len(a) == 4]
-    s6 = [a for a in (cfg.selfips or []) if len(a) == 16]
 
     def clean_src(v6):
         while True:
